@@ -446,6 +446,14 @@ func (fg *FG) allocFamilies(v ssa.Value, fams map[string]bool) {
 	case *ssa.Alloc:
 		el := x.Type().(*types.Pointer).Elem()
 		if s, ok := structOf(el); ok {
+			for k := range fg.g.ct.GhostDefaults {
+				if strings.HasPrefix(k, "any.") {
+					fam := "G_any_" + sanitize(strings.TrimPrefix(k, "any."))
+					if _, has := fg.heapSort[fam]; has {
+						fams[fam] = true
+					}
+				}
+			}
 			for i := 0; i < s.NumFields(); i++ {
 				f, srt := fg.fieldFamily(el, s, i)
 				fg.heapSort[f] = srt
@@ -728,6 +736,9 @@ func (fg *FG) ret(b *ssa.BasicBlock, st *State, t *ssa.Return, pkg *types.Packag
 		}
 		if i < len(fg.results) {
 			env.vars[fg.results[i]] = Val{T: v.T, Ty: fg.fn.Signature.Results().At(i).Type(), Clo: v.Clo}
+			if len(t.Results) == 1 {
+				env.vars["result"] = env.vars[fg.results[i]]
+			}
 		}
 	}
 	fg.retCount++
